@@ -40,6 +40,16 @@ CLAIMS = {
         note="Trusted: struct/bytearray/slice semantics as modelled; reference layout tm_spec() in spverif/props/c03.py. Assumes "
              "timestamp_len >= 0 and field values within declared widths.",
         technique=TECH + "; must-pass check of the CRC verification"),
+    "C05": dict(
+        text="Static analysis: PduHeader.pack is abstractly interpreted for every entity-ID/sequence-number width pair and compared "
+             "per bit with a reference layout from CCSDS 727.0-B-5 5.1; header_len/packet_len as linear forms; the decoder's flag "
+             "and length bits are checked symbolically, its width-code handling by finite case analysis over all 64 code pairs (valid: "
+             "IDs decoded from the reference offsets, all reads proven inside buffer and header; invalid: refused with ValueError); "
+             "header_len_from_raw is reduced to the two 3-bit codes with factors 2 and 1; the four documented refusals are decided "
+             "from the guard facts. Quick tier checks 4 width pairs on the encoder side and 8 of the 16 valid code pairs in full.",
+        note="Trusted: struct/bit semantics as modelled; reference layout cfdp_common.header_spec(). ID values are validated by the "
+             "byte-field classes (C20).",
+        technique=TECH + "; finite case analysis over the width codes"),
 }
 
 NOT_CLAIMED = {}
